@@ -39,7 +39,9 @@ var compileExprs = []string{"1", "concat('a', 'b')", "contains(a, 'x')", "not(tr
 var machineExprs = []string{"a = 'x'", "/l[k = current()/../x]/v", "string-length(concat(a, b))", "l[k = ../x][j = 'c']/v", "vf-probe(string(a))",
 	// a predicate inside a predicate (not evaluated correctly by this code base - consistently so: what
 	// matters here is that every run of the machine gives the same answer)
-	"/l[k = /l3[j = current()/../x]/r]/v"}
+	"/l[k = /l3[j = current()/../x]/r]/v",
+	// a leafref is followed (two more kinds of data-tree callback that can fail)
+	"deref(current()/../r)/../v = 'x'"}
 
 // customMachine is the index of the machine that calls a registered custom (plugin) function.
 const customMachine = 4
@@ -530,6 +532,36 @@ func histories(c *engine.Ctx) {
 		}
 	}
 	rec(nil)
+	// long histories: one operation - every one of the alphabet, and every machine dying at each of its
+	// first five data-tree callbacks - twelve times in a row, then every machine once more (what a
+	// run leaves behind when it ends early may add up)
+	long := append([]op{}, alpha...)
+	for m := range machineExprs {
+		for f := 0; f < 5; f++ {
+			long = append(long, op{Kind: "runfail", Arg: m, Fault: f}, op{Kind: "runfail", Arg: m, Ctx: 1, Fault: f})
+		}
+	}
+	for li, o := range long {
+		id := fmt.Sprintf("history-long:%d:%v", li, o)
+		if c.Expired() {
+			return
+		}
+		if !c.Owns(id) || !c.Case(id) {
+			continue
+		}
+		var h []op
+		for i := 0; i < 12; i++ {
+			h = append(h, o)
+		}
+		isolatedCache(o)
+		c.Add("states", 1)
+		c.Add("transitions", 12)
+		c.Nontrivial()
+		c.Outcome("history-long:" + o.Kind)
+		for _, v := range checkHistory(h) {
+			c.Report(v)
+		}
+	}
 	c.Sample(map[string]any{"history": "compile(foo(1)); runfail(a = 'x'); run(a = 'x'); compile(concat('a', 'b'))"})
 }
 
